@@ -97,6 +97,11 @@ def check(ctx):
     # ---------------------------------------------------------------- C08.1 IV
     g = an.cfg(enc)
     cn = call_names(enc)
+    modes_used = sorted(k for k in cn if k in ("ECB", "CTR", "GCM", "CFB", "OFB", "XTS", "CFB8"))
+    if "CBC" not in cn and modes_used:
+        ctx.ob("iv.mode-is-cbc", enc, "modes.%s" % modes_used[0], False,
+               "AesProvider.encrypt uses %s instead of CBC with a fresh IV: values no longer are IV + AES-256-CBC ciphertext" % modes_used[0])
+        return
     ctx.need("CBC" in cn, "AesProvider.encrypt no longer builds a CBC mode: vanished anchor")
     N = None
     for cbc in cn["CBC"]:
